@@ -8,9 +8,9 @@ CONSTANTS Unit = 21000
           Tips = {1, 2}
           GasShapes <- GS3
           PlainCls = {"ok", "nonceLow", "invalid"}
-          BlobCls = {"ok", "invalid"}
+          BlobCls = {"ok"}
           BlobCounts = {1, 2}
-          MaxBlobsSet = {1, 2}
+          MaxBlobsSet = {2}
           Amsterdam = FALSE
           StateShapes = {0}
           EmitCases = FALSE
